@@ -639,13 +639,25 @@ def idx() -> Rat:
 
 
 # --------------------------------------------------------------------------- printing
+_SHOW_CACHE: Dict[int, str] = {}
+SHOW_LIMIT = 1500       # printed size of one atom; beyond it the text is cut and the atom's number appended (atoms are interned: equal text <=> equal atom)
+
+
 def show_atom(aid: int) -> str:
+    got = _SHOW_CACHE.get(aid)
+    if got is not None:
+        return got
     head, args = ATOMS.defs[aid]
     if head == 'sym':
-        return str(args[0])
-    if head == 'el':
-        return f"{show_any(args[0])}[{show_any(args[1])}]"
-    return f"{head}({', '.join(show_any(a) for a in args)})"
+        out = str(args[0])
+    elif head == 'el':
+        out = f"{show_any(args[0])}[{show_any(args[1])}]"
+    else:
+        out = f"{head}({', '.join(show_any(a) for a in args)})"
+    if len(out) > SHOW_LIMIT:
+        out = f"{out[:SHOW_LIMIT]}...#{aid}"
+    _SHOW_CACHE[aid] = out
+    return out
 
 
 def show_any(x) -> str:
